@@ -12,6 +12,11 @@ CLAIMED = {
    note="Bounds: <=4 points (5 thorough) x <=3 objectives; reals instead of float64; sqrt by contract (y>=0, y*y=x); numpy-compat shim. Outside: larger fronts, NaN/inf coordinates, rounding.",
    technique="symbolic execution of the real numpy code on z3-term arrays (symnp) + z3 (QF_NRA) per-path obligations, replay on real numpy",
    design="2/C19"),
+   "C17": dict(
+   text="Bounded symbolic model checking of the real sampling utilities: stochastic_universal_sampling, tiled_choice, axis_shuffle, outcross_shuffle run on symbolic weights and a contract-stubbed generator (offset draw, permutations and choices are solver variables); per path the floor/ceil-count, zero-weight, balance, multiset, slice-locality and local-optimality assertions are discharged by z3; counterexamples replayed on real numpy with a scripted generator.",
+   note="Bounds: <=3 options x <=3 draws (4x4 thorough), tables 2x2 (3x2 thorough); exact reals; generator by contract (uniform in [lo,hi), arbitrary permutations; outcross_shuffle explores the rotations of each exchange-order shuffle, justified in evidence.stubs).",
+   technique="symbolic execution of the real numpy code on z3-term arrays (symnp) + z3 per-path obligations, symbolic random generator, replay on real numpy",
+   design="2/C17"),
 }
 NA = {}
 for pid in props:
